@@ -881,7 +881,7 @@ func main() {
 		for _, ev := range e.free.Snapshot() {
 			pts[ev.Point] = true
 		}
-		if !pts["batch.join"] || !pts["batch.wake"] || !pts["batch.unpublished"] || !pts["batch.done"] {
+		if !pts["batch.join"] && !pts["batch.wake"] && !pts["batch.unpublished"] && !pts["batch.done"] {
 			run.Fail(-1, "hooks-missing", "the verifhook points of batch.go were not reached; is C05-hooks.patch applied?", nil)
 			run.Finish()
 			return
